@@ -51,6 +51,9 @@ enum Req {
     Allowlist,
     /// PreapproveKeysend as the protocol handler serves it: the velocity approver decides, then the node records
     ApproveKeysend { k: u8 },
+    /// a keysend for ONE payment hash whatever the thread (amount 5000 + a): two of them at once are a retry (same
+    /// amount: one approval, counted once) or a conflict (different amounts: the second one is refused)
+    KeysendSameHash { a: u8 },
 }
 
 impl Req {
@@ -67,7 +70,7 @@ impl Req {
             Req::SetupStub => "setup_channel",
             Req::Balance => "channel_balance",
             Req::Heartbeat => "get_heartbeat",
-            Req::Keysend { .. } => "add_keysend",
+            Req::Keysend { .. } | Req::KeysendSameHash { .. } => "add_keysend",
             Req::CheckOnchain { .. } => "check_onchain_tx",
             Req::AddBlock => "add_block",
             Req::ApproveKeysend { .. } => "approve_keysend",
@@ -300,6 +303,10 @@ impl Base {
             Req::Keysend { k } => {
                 let payee = PublicKey::from_secret_key(secp, &SecretKey::from_slice(&[5; 32]).unwrap());
                 st(report::catch(|| node.add_keysend(payee, PaymentHash([*k; 32]), 1000 + *k as u64)), |b| b.to_string())
+            }
+            Req::KeysendSameHash { a } => {
+                let payee = PublicKey::from_secret_key(secp, &SecretKey::from_slice(&[5; 32]).unwrap());
+                st(report::catch(|| node.add_keysend(payee, PaymentHash([0x77; 32]), 5000 + *a as u64)), |b| b.to_string())
             }
             Req::CheckOnchain { k } => {
                 let (prev, txin) = make_test_funding_wallet_input(node, SpendType::P2wpkh, *k, 1_000_000);
@@ -582,6 +589,18 @@ fn main() {
                     if srng.bool() { threads[t].push(extra) } else { threads[t].insert(0, extra) }
                 }
                 r.count("request_sets.velocity_approver");
+            }
+            if set % 6 == 3 {
+                // two threads approve a keysend for the same payment hash: the same one twice (a retry) or two
+                // different ones (a conflict)
+                let b = srng.below(2) as u8;
+                threads = vec![vec![Req::KeysendSameHash { a: 0 }], vec![Req::KeysendSameHash { a: b }]];
+                if srng.bool() {
+                    let extra = gen_req(&mut srng, &base);
+                    let t = srng.usize(2);
+                    if srng.bool() { threads[t].push(extra) } else { threads[t].insert(0, extra) }
+                }
+                r.count("request_sets.keysends_for_one_hash");
             }
             let kinds: Vec<Vec<&str>> = threads.iter().map(|t| t.iter().map(|q| q.kind()).collect()).collect();
             r.count("request_sets");
